@@ -239,7 +239,7 @@ def main(tier, seed):
     from .. import runner
     return runner.run_history(
         __name__, "C14", tier, seed, {"quick": 3, "thorough": 4}[tier],
-        rule="BFS over bundle-free histories of <= depth records/attributes (21-letter alphabet: declared and "
+        rule="BFS over bundle-free histories of <= depth records/attributes (27-letter alphabet: declared and "
              "undeclared endpoints, entity+agent with one identifier, self-loops, parallel duplicates, identified and "
              "anonymous relations, missing endpoints); non-trivial = the reference graph has at least one edge")
 
